@@ -37,6 +37,7 @@ package dns
 //@ func cloneSlice [C02 C16]
 //@   ensures len(ret0) == len(s) && (s == nil ==> ret0 == nil)
 //@   ensures fresh: fresh(ret0)
+//@   fresh
 
 //@ func unpackDataA [C01 C02 C16]
 //@   requires 0 <= off
